@@ -2,6 +2,7 @@ package ref
 
 import (
 	"fmt"
+	"reflect"
 	"sort"
 
 	"verif/internal/model"
@@ -410,6 +411,9 @@ func (x *Exec) complete(t *model.TypeRef, v interface{}, f *model.Field, path []
 	if _, isTN := v.(model.TypedNil); isTN {
 		return nil
 	}
+	if isNilPtr(v) {
+		return nil // a nil pointer / map / func / chan is Go's null whatever the declared type
+	}
 	if t.NonNull {
 		return x.complete(t.Of, v, f, path, nth)
 	}
@@ -451,6 +455,10 @@ func (x *Exec) complete(t *model.TypeRef, v interface{}, f *model.Field, path []
 			x.err(path, "coerce-out")
 			return nil
 		}
+		if r.MayReject {
+			x.err(path, "optional")
+			return OptionalLeaf{V: r.Value}
+		}
 		return r.Value
 	default:
 		n, isNode := v.(*model.Node)
@@ -478,6 +486,17 @@ func AsList(v interface{}) ([]interface{}, bool) {
 		return t, true
 	case []interface{}:
 		return t, true
+	case string, []byte:
+		return nil, false
+	}
+	rv := reflect.ValueOf(v)
+	if rv.Kind() == reflect.Slice || rv.Kind() == reflect.Array {
+		// a typed Go slice is the list of its elements
+		out := make([]interface{}, rv.Len())
+		for i := range out {
+			out[i] = rv.Index(i).Interface()
+		}
+		return out, true
 	}
 	return nil, false
 }
@@ -489,4 +508,13 @@ func (r *Result) Describe() map[string]interface{} {
 		errs[i] = fmt.Sprintf("%s@%s", e.Kind, PathString(e.Path))
 	}
 	return map[string]interface{}{"req_err": r.ReqErr, "data": Render(r.Data), "errors": errs, "calls": len(r.Calls)}
+}
+
+func isNilPtr(v interface{}) bool {
+	rv := reflect.ValueOf(v)
+	switch rv.Kind() {
+	case reflect.Ptr, reflect.Map, reflect.Interface, reflect.Func, reflect.Chan:
+		return rv.IsNil()
+	}
+	return false
 }
